@@ -804,52 +804,119 @@ def oracle_c13(case, ir):
     return None
 
 
+def _c05_close(a, b, tol=1e-12):
+    if a == b or (math.isnan(a) and math.isnan(b)):
+        return True
+    return abs(a - b) <= tol * max(1.0, abs(a), abs(b))
+
+
+def _c05_cuts(n, key):
+    """cut points k, 1 <= k <= n-1: all of them for short samples, else first/last/middle/two keyed ones"""
+    if n <= 6:
+        return list(range(1, n))
+    return sorted({1, n - 1, n // 2, 1 + key % (n - 1), 1 + (key // 7) % (n - 1)})
+
+
+def _c05_tails(x, k, u, key, N):
+    """replacements of the tail x[k:], all in [0,u], non-empty: same length (mirrored / halved, all u, all 0),
+    a single observation, and a longer tail (population size permitting)"""
+    tail = x[k:]
+    cand = [
+        ("mirrored", [(u - v) if (i + key) % 2 else (v / 2) for i, v in enumerate(tail)]),
+        ("all-u", [u] * len(tail)),
+        ("all-0", [F(0)] * len(tail)),
+        ("single", [u if key % 2 else F(0)]),
+        ("longer", list(tail) + [u / 2, u]),
+    ]
+    return [(nm_, alt) for nm_, alt in cand if alt != tail and (N is None or k + len(alt) <= N)]
+
+
+def _c05_arr(v):
+    return np.array([float(a) for a in v], dtype=float)
+
+
+def _c05_param(init, op, x, base, what):
+    """entries 0..k of estim/bet (the parameters applied to observations 1..k+1) are unchanged by any change
+    to observations k+1, k+2, ..."""
+    f = (lambda o, z: o.estim(z)) if op == "estim" else (lambda o, z: o.bet(z))
+    u = F(init["u_now"] if init.get("u_now") is not None else init["u"])
+    n = len(x)
+    key = sum(int(v * 64) for v in x) + n
+    for k in _c05_cuts(n, key):
+        for name, alt in _c05_tails(x, k, u, key, init["N"]):
+            y = x[:k] + alt
+            e2 = impl_call(lambda: bc(f(make_nm(init), _c05_arr(y)), len(y)))
+            if not isinstance(e2, list):
+                continue
+            for i in range(min(k + 1, len(base), len(e2))):
+                if not _c05_close(base[i], e2[i]):
+                    return {"what": f"the {what} applied to observation {i + 1} changed when only observations "
+                                    f"{k + 1}.. changed ({name} tail): {base[i]!r} vs {e2[i]!r}",
+                            "cut": k, "other_tail": [fr(v) for v in alt]}
+    return None
+
+
 def oracle_c05(case, ir):
-    """non-anticipation, metamorphic on the implementation: change the tail, keep the head"""
-    if not valid_for_wellformed(case) or ir.get("st") != "ok" or len(case["x"]) < 2:
+    """non-anticipation, metamorphic on the implementation: change the tail, keep the head
+    (several cut points, several replacement tails incl. shorter and longer ones); truncate"""
+    if case.get("stream") == "malformed" or ir.get("st") != "ok" or len(case["x"]) < 2:
         return None
     init = case["init"]
     u = F(init["u_now"] if init.get("u_now") is not None else init["u"])
+    t = F(init["t"])
+    N = init["N"]
     x = [F(v) for v in case["x"]]
     n = len(x)
-    key = sum(int(F(v) * 64) for v in case["x"]) + n
-    k = 1 + key % (n - 1)                      # cut point, 1 <= k <= n-1
-    alt = [(u - v) if (i + key) % 2 else (v / 2) for i, v in enumerate(x[k:])]
-    y = x[:k] + alt
-    if init["N"] is not None and sum(y) > sum(x) and False:
-        pass
-    nm = make_nm(init)
-    r2 = impl_call(lambda: nm.test(np.array([float(v) for v in y])))
-    if isinstance(r2, dict):
+    if case["op"] in ("estim", "bet"):
+        if any(v < 0 or v > u for v in x) or not (0 < t < u) or (N is not None and n > N):
+            return None
+        return _c05_param(init, case["op"], x, ir["v"], "alternative mean" if case["op"] == "estim" else "bet")
+    if not valid_for_wellformed(case):
         return None
-    h2 = flo(r2[1])
-    for i in range(k):
-        a, b = ir["hist"][i], h2[i]
-        if not (a == b or abs(a - b) <= 1e-12 * max(1.0, abs(a))):
-            return {"what": f"samples agree in their first {k} observations but history[{i}] differs: {a!r} vs {b!r}",
-                    "other_tail": [fr(v) for v in alt]}
-    # truncation: first k-1 entries unchanged, k-th can only go down
-    nm2 = make_nm(init)
-    r3 = impl_call(lambda: nm2.test(np.array([float(v) for v in x[:k]])))
-    if isinstance(r3, dict):
-        return None
-    h3 = flo(r3[1])
-    for i in range(k - 1):
-        if not (h3[i] == ir["hist"][i] or abs(h3[i] - ir["hist"][i]) <= 1e-12):
-            return {"what": f"truncating to {k} observations changed history[{i}]: {h3[i]!r} vs {ir['hist'][i]!r}"}
-    if h3[k - 1] > ir["hist"][k - 1] + 1e-12:
-        return {"what": f"truncating to {k} observations raised history[{k - 1}]: {h3[k - 1]!r} > {ir['hist'][k - 1]!r}"}
-    # estimator / bet predictability
+    key = sum(int(v * 64) for v in x) + n
     test = init["test"] or "alpha_mart"
+    hist = ir["hist"]
+    for k in _c05_cuts(n, key):
+        # common head, different continuation: first k entries agree
+        for name, alt in _c05_tails(x, k, u, key, N):
+            y = x[:k] + alt
+            r2 = impl_call(lambda: make_nm(init).test(_c05_arr(y)))
+            if isinstance(r2, dict):
+                continue
+            h2 = flo(r2[1])
+            for i in range(k):
+                if not _c05_close(hist[i], h2[i]):
+                    return {"what": f"samples agree in their first {k} observations but history[{i}] differs "
+                                    f"({name} tail): {hist[i]!r} vs {h2[i]!r}",
+                            "cut": k, "other_tail": [fr(v) for v in alt]}
+        # truncation: first k-1 entries unchanged, k-th can only go down, and only through the clamp
+        r3 = impl_call(lambda: make_nm(init).test(_c05_arr(x[:k])))
+        if isinstance(r3, dict):
+            continue
+        h3 = flo(r3[1])
+        if len(h3) != k:
+            return {"what": f"history of the first {k} observations has {len(h3)} entries"}
+        for i in range(k - 1):
+            if not _c05_close(h3[i], hist[i]):
+                return {"what": f"truncating to {k} observations changed history[{i}]: {h3[i]!r} vs {hist[i]!r}", "cut": k}
+        if not (h3[k - 1] <= hist[k - 1] + 1e-12):
+            return {"what": f"truncating to {k} observations raised history[{k - 1}]: {h3[k - 1]!r} > {hist[k - 1]!r}", "cut": k}
+        head = sum(x[:k])
+        clamp_possible = test in ("alpha_mart", "betting_mart") and N is not None
+        if not clamp_possible or head < N * t - F(1, 10 ** 9):
+            if not _c05_close(h3[k - 1], hist[k - 1]):
+                return {"what": f"truncating to {k} observations changed history[{k - 1}] although the observed total "
+                                f"{float(head)} does not exceed N t: {h3[k - 1]!r} vs {hist[k - 1]!r}", "cut": k}
+        elif head > N * t + F(1, 10 ** 9) and h3[k - 1] != 0.0:
+            return {"what": f"first {k} observations total {float(head)} > N t = {float(N * t)} but the last p-value "
+                            f"of the truncated sample is {h3[k - 1]!r}, not 0", "cut": k}
+    # estimator / bet predictability on the test's own estimator / bet
     if test in ("alpha_mart", "betting_mart"):
-        f = (lambda o, z: o.estim(z)) if test == "alpha_mart" else (lambda o, z: o.bet(z))
+        op = "estim" if test == "alpha_mart" else "bet"
+        f = (lambda o, z: o.estim(z)) if op == "estim" else (lambda o, z: o.bet(z))
         e1 = impl_call(lambda: bc(f(make_nm(init), xs(case)), n))
-        e2 = impl_call(lambda: bc(f(make_nm(init), np.array([float(v) for v in y])), n))
-        if isinstance(e1, list) and isinstance(e2, list):
-            for i in range(k + 1):   # entry j (1-based) depends on x_1..x_{j-1}: entries 0..k agree
-                if i < n and not (e1[i] == e2[i] or (math.isnan(e1[i]) and math.isnan(e2[i])) or abs(e1[i] - e2[i]) <= 1e-12 * max(1.0, abs(e1[i]))):
-                    return {"what": f"the parameter applied to observation {i + 1} changed when only observations "
-                                    f"{k + 1}.. changed: {e1[i]!r} vs {e2[i]!r}"}
+        if isinstance(e1, list):
+            return _c05_param(init, op, x, e1, "alternative mean" if op == "estim" else "bet")
     return None
 
 
